@@ -237,12 +237,24 @@ def tag_lines(lines):
         i = tag_table(lines, tags, i, end, 'element')        # the reader calls the first table 'element' whatever its header
         if i is None: return None
         while i < end:
-            # lines up to the header of the next table: ..., a KCYC/ITER line, blank lines, the header
-            kc = next((q for q in range(i, end) if lines[q].strip().startswith('KCYC') and 'ITER' in lines[q]), None)
-            if kc is None: break
-            q = kc + 1
-            while q < end and not lines[q].strip(): q += 1
-            if q >= end: break
+            # lines up to the header of the next table: ..., a KCYC/ITER line, blank lines, the header; an EOS7c
+            # 'MASS FLOW RATES' block (title after the KCYC/ITER line, lines up to an @@@@@ line) is passed over
+            scan = i
+            q = None
+            while True:
+                kc = next((j for j in range(scan, end) if lines[j].strip().startswith('KCYC') and 'ITER' in lines[j]), None)
+                if kc is None: break
+                j = kc + 1
+                while j < end and not lines[j].strip(): j += 1
+                if j >= end: break
+                if lines[j].strip() == 'MASS FLOW RATES (KG/S) FROM DIFFUSION':
+                    z = next((k2 for k2 in range(j + 1, end) if is_at(lines[k2])), None)
+                    if z is None: break
+                    scan = z + 1
+                    continue
+                q = j
+                break
+            if q is None: break
             nxt = tag_table(lines, tags, q, end, table_kind(lines[q].split()))
             if nxt is None: break
             for p in range(i, q): tags[p] = 'i'
